@@ -123,7 +123,10 @@ def matchfile_from_alignment(
         raise ValueError("Version should >= 1.0.0")
 
     if not assume_part_unfolded:
-        # unfold score according to alignment
+        # unfold score according to alignment. This is done on a copy of the
+        # alignment, since unfold_part_alignment renames the score ids in
+        # the alignment it is given (the caller's alignment is left untouched).
+        alignment = [dict(al) for al in alignment]
         spart = score.unfold_part_alignment(spart, alignment)
 
     # Info Header Lines
